@@ -97,7 +97,7 @@ class C16(Check):
 
     def spaces(self, tier):
         Q = tier == "quick"
-        plan = [("full", 3, 1), ("qmdonly", 4, 2), ("values", 3, 1)] if Q else [("full", 4, 2), ("qmdonly", 6, 2), ("values", 5, 2)]
+        plan = [("full", 3, 1), ("qmdonly", 4, 2), ("values", 3, 1)] if Q else [("full", 4, 2), ("qmdonly", 5, 2), ("values", 4, 2)]
         out = []
         for mname, depth, plen in plan:
             m = self._model(mname)
